@@ -1,4 +1,6 @@
 use crate::{Core, Fwd, Waker};
+#[cfg(uazu_stakker_verif)]
+use crate::verif_std as std;
 use std::sync::{Arc, Mutex};
 
 /// Channel for sending messages to an actor
